@@ -14,6 +14,14 @@ def parseRatios? (s : String) : Option (List (List Ratio)) :=
 def unflat (m₁ m₂ : ℕ) (rows : Array (Array ℚ)) : T3 :=
   tab3 rows.size m₁ m₂ fun i j k => rd2 rows i (j * m₂ + k)
 
+/-- Σ|terms| bookkeeping for the float tolerance (not part of the model): magnitude of
+the fully expanded residual `|X| + Σ_{c<k} |c_c|·|T_c|`. -/
+def residAbs (n m₁ m₂ : ℕ) (X : T3) (T : ℕ → Comp) (c : ℕ → ℚ) : ℕ → T3
+  | 0 => tab3 n m₁ m₂ fun i j k => |rd3 X i j k|
+  | k + 1 =>
+    let A := residAbs n m₁ m₂ X T c k
+    tab3 n m₁ m₂ fun i j l => rd3 A i j l + |c k| * |outer3 (T k) i j l|
+
 def answer (l : String) : String :=
   match tokens l with
   | ["ctl", mx, ad, tol, k, rs] =>
@@ -39,7 +47,8 @@ def answer (l : String) : String :=
       let Rarr := Rs.toArray
       let R : ℕ → T3 := fun c => Rarr.getD c #[]
       let cs := tabA K fun c => coef n m₁ m₂ (rd3 (R c)) (T c)
-      let cabs := (List.range K).map fun c => coefAbs n m₁ m₂ (rd3 (R c)) (T c)
+      let cabs := (List.range K).map fun c =>
+        ip3 n m₁ m₂ (rd3 (residAbs n m₁ m₂ Xa T (rd cs) c)) (fun i j k => |outer3 (T c) i j k|)
       let ens := (List.range (K + 1)).map fun c => energy n m₁ m₂ (rd3 (R c))
       let taus := (List.range K).map fun c => tau n m₁ m₂ (T c)
       let S := tabA2 n K (scores (rd cs) T)
